@@ -311,9 +311,22 @@ def rule_a4(repo):
     exp = repo.func(PRINTER, 'export_proof_item')
     # keys of the dict literal assigned to res
     always = set()
-    for n in ast.walk(exp.node):
-        if isinstance(n, ast.Assign) and any(is_name(t, 'res') for t in n.targets) and isinstance(n.value, ast.Dict):
-            always |= {k.value for k in n.value.keys if isinstance(k, ast.Constant)}
+    # the line may be built in export_proof_item itself or in a function of the module it calls (two levels)
+    builders, todo = [exp], [(exp, 0)]
+    while todo:
+        g, d = todo.pop()
+        for c in ast.walk(g.node):
+            if isinstance(c, ast.Call) and isinstance(c.func, ast.Name) and c.func.id in exp.module.functions and d < 2:
+                h = exp.module.functions[c.func.id]
+                if h not in builders:
+                    builders.append(h)
+                    todo.append((h, d + 1))
+    for g in builders:
+        returned = {x.id for r in ast.walk(g.node) if isinstance(r, ast.Return) and r.value is not None for x in ast.walk(r.value) if isinstance(x, ast.Name)}
+        for n in ast.walk(g.node):
+            if isinstance(n, ast.Assign) and isinstance(n.value, ast.Dict) and any(isinstance(t, ast.Name) and t.id in returned for t in n.targets) and \
+                    any(isinstance(k, ast.Constant) and k.value == 'id' for k in n.value.keys):
+                always |= {k.value for k in n.value.keys if isinstance(k, ast.Constant)}
     need(always, 'printer.export_proof_item: exported dict literal not found')
     for rel, qual, param in ((PARSER, 'parse_proof_rule', None), (SERVER, 'parse_proof', None)):
         f = repo.func(rel, qual)
@@ -595,7 +608,11 @@ def rule_a11(repo):
     therefore be parsed under the declarations registered so far: registration and parsing are steps of one pass over
     the lines, registration first.  Declaring everything up front types every line by the last declaration of a name."""
     res = RuleResult('C13.A11', 'a proof line is parsed under the variable declarations of the lines before it (one pass, registration first)', floor=1)
-    f = repo.func('server/server.py', 'parse_proof')
+    from ..inline import inlined
+    f = inlined(repo.func('server/server.py', 'parse_proof'), lambda h: any(
+        (isinstance(st, ast.Assign) and isinstance(st.targets[0], ast.Subscript) and src(st.targets[0].value, 40).endswith('ctxt.vars')) or
+        (isinstance(st, ast.Call) and call_attr(st) == 'parse_proof_rule') for st in ast.walk(h.node)))[0]      # either step may be a helper
+    cfg = cfg_of(f.node)
     loops = [l for l in ast.walk(f.node) if isinstance(l, ast.For)]
     reg = [(l, st) for l in loops for st in ast.walk(l) if isinstance(st, ast.Assign) and isinstance(st.targets[0], ast.Subscript) and
            src(st.targets[0].value, 40).endswith('ctxt.vars')]
@@ -610,8 +627,16 @@ def rule_a11(repo):
             continue
         if not (c.args and isinstance(l.target, ast.Name) and is_name(c.args[0], l.target.id)):
             problems.append('line %d does not parse the line of the current iteration' % c.lineno)
-        if min(st.lineno for st in same) > c.lineno:
-            problems.append('line %d parses the line before its own declaration is registered' % c.lineno)
+        # within one round of the loop the registration comes first: the parsing step cannot be followed by it before the next round
+        head = [n for n in cfg.nodes_of_kind('iter') if n.ast is l]
+        pnodes = [n for n in cfg.nodes if n.kind in ('stmt', 'return') and n.ast is not None and any(x is c for x in ast.walk(n.ast))]
+        rnodes = [n for n in cfg.nodes if n.kind == 'stmt' and any(n.ast is st for st in same)]
+        if head and pnodes and rnodes:
+            after = cfg.reach_from([b for p in pnodes for b, _l in p.succ], skip_nodes=head)
+            if any(r.id in after for r in rnodes):
+                problems.append('line %d parses the line before its own declaration is registered' % c.lineno)
+        else:
+            need(False, 'parse_proof: steps of the loop over the lines not found in the flow graph')
     res.add('server/server.py :: parse_proof :: declare-then-parse-per-line', not problems,
             'one loop: a variable line is registered, then the line is parsed' if not problems else
             '; '.join(problems) + ' -- with two subproofs that each introduce x, at nat and at bool, every line is typed by the last declaration: the '
